@@ -79,7 +79,17 @@ func (m *mon) causes(v reflect.Value, name string) []cause {
 	}
 	m.prevOK = false
 	if !(dpan == "" && derr == nil && equalNorm(v, d)) {
-		cs = append(cs, diagDecode(v, name)...)
+		found := diagDecode(v, name)
+		if len(found) == 0 {
+			// the round trip of the whole value fails although every field decodes on its own: the failure depends on
+			// something outside the value (what was decoded before, process-wide state); it is a failure all the same
+			what := "Unmarshal(reference encoding) does not give back the value although every field round-trips on its own"
+			if derr != nil {
+				what += ": " + derr.Error()
+			}
+			found = append(found, cause{"roundtrip:whole-value-only", what, name, map[string]interface{}{"decoded": describe(d)}})
+		}
+		cs = append(cs, found...)
 	} else {
 		// the caller owns its buffer: Unmarshal must leave it as it was (the same bytes decode again) and the
 		// decoded value must not change when the caller reuses the buffer afterwards
@@ -745,6 +755,7 @@ func main() {
 
 	// ---- verdict ----------------------------------------------------------------------------------
 	affected := map[string]interface{}{}
+	sameNamedTypes(m)
 	for _, sig := range m.order {
 		f := m.finds[sig]
 		var ts []string
@@ -791,4 +802,47 @@ func main() {
 	r.Floor("inline_list_pattern", r.DistinctN("inline_list_pattern"), 31)
 	r.Floor("field_kinds_generated", r.DistinctN("field_kinds_generated"), 14)
 	r.Finish()
+}
+
+// sameNamedTypes: two DIFFERENT struct types with the same printed name (function-local types of two scopes; two
+// packages with the same package name give the same) are decoded one after the other in this process, each with an
+// inline list of elements.  Whatever the decoder remembers about a type must be remembered per type, not per name.
+func sameNamedTypes(m *mon) {
+	round := func(v interface{}, origin string) {
+		rv := reflect.ValueOf(v)
+		m.check(rv, typeEntry{name: "local:" + origin, t: rv.Type()}, origin)
+		m.r.Count("same_named_type_values", 1)
+	}
+	for k := 0; k < 3; k++ {
+		func() {
+			type item struct {
+				Id uint8 `tlv8:"1"`
+			}
+			type list struct {
+				Items []item `tlv8:"-"`
+			}
+			round(list{Items: []item{{1}, {2}, {3}}}, "same-named-types/first-scope")
+		}()
+		func() {
+			type item struct {
+				Name string `tlv8:"4"`
+				Port uint16 `tlv8:"5"`
+			}
+			type list struct {
+				Items []item `tlv8:"-"`
+			}
+			round(list{Items: []item{{"alpha", 80}, {"beta", 443}}}, "same-named-types/second-scope")
+		}()
+		func() {
+			type item struct {
+				Flag bool   `tlv8:"2"`
+				Data []byte `tlv8:"3"`
+			}
+			type list struct {
+				Head  uint8  `tlv8:"9"`
+				Items []item `tlv8:"-"`
+			}
+			round(list{Head: 7, Items: []item{{true, []byte{1, 2, 3}}, {false, []byte{9}}}}, "same-named-types/third-scope")
+		}()
+	}
 }
